@@ -67,6 +67,9 @@ def descriptions(rng, tier):
              "3,H+,E,,H,,,,>5.5e3,NONE,exp(-28.61303380689232d0)*user_crate\n"
              "4,HE,E,,HE+,E,E,,NONE,NONE,2.38d-11*sqrt(Tgas)*ntot\n")
     out["krome"] = {"elements": ["E", "H", "HE"], "pseudo": ["g"], "kwargs": {}, "files": [[krome, "krome"]]}
+    # the same reactions under other directives: equal reaction lists, different parameter / variable tables
+    krome2 = krome.replace("@common:user_crate,user_Av", "@common:user_crate,user_Av,user_extra").replace("@var:ntot=nH", "@var:ntot=2.0*nH*user_extra")
+    out["krome2"] = {"elements": ["E", "H", "HE"], "pseudo": ["g"], "kwargs": {}, "files": [[krome2, "krome"]]}
     # D5: ice species on several grain populations (#1…, #2…, #3…): one Grain component per group
     mg = [native(1, ["H", "OH"], ["H2O"]), native(2, ["C", "OH"], ["CO", "H"]), native(3, ["N", "N"], ["N2"]),
           native(4, ["H2O"], ["#1H2O"], a=1.0, ty=200), native(5, ["#1H2O"], ["H2O"], a=1.0, ty=201),
@@ -142,7 +145,7 @@ def run(argv):
     # (c) interleavings: build A, then build/query/render B, then render A; edit after interleaving
     pairs = [(a, b) for a in names for b in names if a != b]
     if tier == "quick":
-        pairs = rng.sample(pairs, 6) + [("upper", "default"), ("gprefix", "upper")]
+        pairs = rng.sample(pairs, 6) + [("upper", "default"), ("gprefix", "upper"), ("krome2", "krome"), ("krome", "krome2")]
     for a, b in pairs:
         steps = [{"op": "build", "id": "A", "desc": descs[a]}, {"op": "build", "id": "B", "desc": descs[b]},
                  {"op": "query", "id": "B"}, {"op": "render", "id": "B", "backend": BACKENDS[0], "tag": [b, "dense"]},
@@ -151,7 +154,7 @@ def run(argv):
         jobs.append((f"interleave-{a}-after-{b}", {"steps": steps}, rng.choice(seeds)))
     # (c2) editing A after B was built: the late line must be parsed with A's own lists
     extra = {"upper": (native(77, ["MG+", "E"], ["MG"]), "naunet"), "default": (native(77, ["Mg+", "e-"], ["Mg"]), "naunet"),
-             "krome": ("5,HE+,E,,HE,,,,NONE,NONE,1.0d-11", "krome"),
+             "krome": ("5,HE+,E,,HE,,,,NONE,NONE,1.0d-11", "krome"), "krome2": ("5,HE+,E,,HE,,,,NONE,NONE,1.0d-11", "krome"),
              "gprefix": (netgen.leeds_line(77, ["GH", "GCO"], ["GHCO"]), "leeds"),
              "multigroup": (native(77, ["#2N2"], ["N2"], a=1.0, ty=201), "naunet")}
     for a in names:
